@@ -14,6 +14,7 @@ mod size;
 mod smoke;
 mod streams;
 mod timeouts;
+mod tls;
 mod tower;
 mod wire;
 
@@ -64,6 +65,9 @@ fn main() -> anyhow::Result<()> {
         "C19" => tower::run_c19(&mut run)?,
         "C20" => tower::run_c20(&mut run)?,
         "C13" => dialing::run_c13(&mut run)?,
+        "C01" => tls::run_c01(&mut run)?,
+        "C03" => tls::run_c03(&mut run)?,
+        "C14" => tls::run_c14(&mut run)?,
         "C15" => match replay.as_deref() {
             Some(r) => size::replay(&mut run, r)?,
             None => size::run_c15(&mut run)?,
